@@ -36,19 +36,18 @@ PROPS = {
         ],
     },
     "C15": {
-        "technique": "Lean 4 invariant + simulation proofs (fast path = cold path on every state; register invariant) + exhaustive short-string correspondence against the model and the RFC decoder",
-        "level_text": "Theorems for every decoder state, byte string and request: each public read (bool, flag, literal, optional signed, tree) equals the fallback path whether or not the speculative path commits; the register invariant 128<=range<=255, -8<=bit_count<=31 holds initially and after every read (all shifts legal, debug_asserts hold); read_flag = read_bool(128); exhaustion is sticky and side-effect free; the crate's trees are well-shaped. The refinement of the model to the RFC 6386 section 7.3 decoder (values until exhaustion, exhaustion after the same request) is stated (C15.refines_rfc_full) and in this pass is established by execution, not proof: the real decoder, the model and the RFC decoder are run on ALL byte strings of length 0..2 (thorough: 0..3) x 13 request programs and on random longer strings.",
-        "level_note": "Trusted: Lean kernel + standard axioms; transcription of RFC 6386 section 7.3 (text not available offline; cross-read against libwebp's bit_reader) ; the refinement to the RFC decoder is differential, not yet a theorem (listed under partial).",
-        "design_ref": "DESIGN.md section 4, C15",
+        "technique": "Lean 4 refinement proof (crate decoder and RFC 6386 decoder are both finite-precision views of one ideal decoder; simulation over arbitrary request programs incl. exhaustion) + path-independence and invariant proofs + exhaustive short-string correspondence of the real code against the model and the RFC decoder",
+        "level_text": "Theorem C15.refines_rfc (the property at full strength): for EVERY byte string whose first byte is not 0xFF and EVERY program of requests - booleans with any byte probability, flags, literals and optional signed values up to 8 bits, reads with any of the decoder's four trees under all their probability vectors - the model of the crate's decoder (4-byte chunk loads into a 64-bit register, speculative fast path with rollback, cold path, 0..3 trailing bytes, one tolerated pad byte, sticky end-of-data) returns exactly the RFC 6386 section 7.3 decoder's value after every request until the data is exhausted and reports exhaustion after exactly the request at which the RFC decoder's decisions first depend on more than one byte past the end. Proof: an ideal decoder (range, 8-bit integer part, stream position); the RFC state and the crate state each determine it (window lemmas over MSB-first bit strings, chunk/byte/pad loads, renormalisation = normShift shifts), simulation through every request kind, well-shaped trees decided for all 103 (tree, probability vector) pairs. Also: every public read equals the fallback path whether or not the speculative path commits; register invariant 128<=range<=255, -8<=bit_count<=31 (all shifts legal, debug_asserts hold); exhaustion sticky and side-effect free. The model is tied to the real decoder on every run: ALL byte strings of length 0..2 (thorough: 0..3) x 16 request programs and random longer strings, real code vs model vs RFC decoder.",
+        "level_note": "Trusted: Lean kernel + standard axioms; transcription of RFC 6386 section 7.3 (text not available offline; cross-read against libwebp's bit_reader); the model-to-code tie is differential (exhaustive for short strings).",
+        "design_ref": "DESIGN.md section 4, C15 and section 8.2",
         "trusted_base": COMMON_TB + [
             "modelled, not verified: vp8_arithmetic_decoder.rs (State, init, load_from_final_bytes, cold_read_bit/flag/literal/optional_signed/with_tree, FastDecoder::*, commit_if_valid, the five public read_* entry points, is_past_eof) as Arith.*; u64 truncation of `value <<= n` explicit",
             "specification: RFC 6386 section 7.3 boolean decoder transcribed as BoolDec.* with unbounded value register and zero bytes past the end; 'consumed more than one byte beyond the data' = some decision depended on byte index >= len+1",
         ],
         "assumptions": [
-            "tree requests use the crate's own tree tables (regenerated from vp8.rs); probabilities are bytes",
-            "strings with a leading 0xFF (never produced by a boolean encoder) are compared with the RFC decoder only as long as the 64-bit register does not overflow: non-normative corner recorded in DESIGN.md",
+            "tree requests use the crate's own tree tables (regenerated from vp8.rs; their shape is a kernel-checked fact, C15.crate_trees_good); probabilities are bytes; literal widths <= 8 (the crate's u8 accumulator)",
+            "first byte of the partition is not 0xFF: then the code value would not lie inside the range, a state no boolean encoder produces (hypothesis of C15.refines_rfc; compared by execution only as long as the 64-bit register does not overflow)",
         ],
-        "partial": ["C15.refines_rfc_full (model = RFC decoder for all strings/programs) is stated but not yet proved; it is validated exhaustively for strings of length <= 2 (quick) / <= 3 (thorough) and randomly beyond"],
     },
     "C06": {
         "technique": "Lean 4 per-pixel refinement proof (loop lemmas on the flat canvas, induction over the frame history) + hook-level and file-level correspondence + libwebp AnimDecoder oracle for the specification",
